@@ -271,6 +271,11 @@ def standin_unit(tier: str, seed: int):
     def harness(I: Interp) -> None:
         r = standin(tier, seed)
         I.ghost["standin"] = r
+        I.ex.extra.update({"evaluations": r["evaluations"],
+                           "distinct_nontrivial": r["evaluations"], "samples": r["samples"],
+                           "rule": "one case = one randomize() run (seed x parameter set) checked "
+                                   "against the structural postcondition, plus one subprocess per "
+                                   "PYTHONHASHSEED; all cases are distinct by construction"})
         I.prove("B-randomize-structure-and-cross-process-identity(bounded-standin)",
                 z3.BoolVal(r["n_bad"] == 0),
                 "; ".join(r["violations"][:2]) or f"{r['evaluations']} models")
